@@ -11,14 +11,11 @@ Local Open Scope Z_scope.
 Definition gc_le (a b : gcv) : Prop := exists x y, gc_read a = Some x /\ gc_read b = Some y /\ x <= y.
 
 Definition to_gc (k : skey) : bool := match k with KGc => true | _ => false end.
-(* the service id is not cleaned by path.Join onto the cluster safe point key *)
-Definition clean_label (l : label) : bool :=
-  match l with LSvc i _ _ _ | LApiDel i | LSeed i _ _ => negb (to_gc (key_of i)) | _ => true end.
-(* no other UpdateGCSafePoint request is between its load and its save when this one loads *)
+(* no other UpdateGCSafePoint request is between its load and its save when this one loads
+   (what the mutex enforces; only needed to talk about the model without the mutex) *)
 Definition excl_label (s : state) (l : label) : bool :=
   match l with LLoad _ _ => Nat.eqb (npend s) 0 | _ => true end.
-Definition safe_label (s : state) (l : label) : bool := clean_label l && excl_label s l.
-Definition clean_guard (_ : state) (l : label) : bool := clean_label l.
+Definition no_guard (_ : state) (_ : label) : bool := true.
 
 Ltac inj_some :=
   repeat match goal with
@@ -49,20 +46,27 @@ Proof.
   destruct mn as [m|]; [destruct has|]; cbn; exact H.
 Qed.
 
-Lemma save_service_gc k e st st' : to_gc k = false -> save_service k e st = Some st' -> gc st' = gc st.
+(* an id that passes checkServiceID is stored under its own key, never on the cluster key *)
+Lemma id_ok_not_gc i : id_ok i = true -> to_gc (key_of i) = false.
+Proof. destruct i as [| |z k]; cbn; try reflexivity. destruct k; cbn; intros; try discriminate; reflexivity. Qed.
+
+Lemma save_service_gc i e st st' : save_service i e st = Some st' -> gc st' = gc st.
 Proof.
-  unfold save_service. intros Hk H.
-  destruct (e_text e); [destruct (e_exp e =? maxI64)| |]; inj_some; apply st_save_gc; exact Hk.
+  unfold save_service. intros H.
+  destruct (e_text e); try discriminate; destruct (id_ok i) eqn:Eo; cbn in H; try discriminate;
+    [destruct (e_exp e =? maxI64); [|discriminate]|]; inj_some; apply st_save_gc, id_ok_not_gc; exact Eo.
 Qed.
 
-Lemma remove_service_gc i st st' : to_gc (key_of i) = false -> remove_service i st = Some st' -> gc st' = gc st.
+Lemma remove_service_gc i st st' : remove_service i st = Some st' -> gc st' = gc st.
 Proof.
-  unfold remove_service. intros Hk H. destruct (text_of i); inj_some; apply st_remove_gc; exact Hk.
+  unfold remove_service. intros H.
+  destruct (text_of i); try discriminate; destruct (id_ok i) eqn:Eo; try discriminate; inj_some;
+    apply st_remove_gc, id_ok_not_gc; exact Eo.
 Qed.
 
-Lemma svc_update_gc st i ttl sp now : to_gc (key_of i) = false -> gc (fst (svc_update st i ttl sp now)) = gc st.
+Lemma svc_update_gc st i ttl sp now : gc (fst (svc_update st i ttl sp now)) = gc st.
 Proof.
-  intros Hk. unfold svc_update.
+  unfold svc_update.
   assert (H0 : forall st0, (if ttl <=? 0 then remove_service i st else Some st) = Some st0 -> gc st0 = gc st).
   { intros st0. destruct (ttl <=? 0); intros H; [eapply remove_service_gc; eauto | inj_some; reflexivity]. }
   destruct (if ttl <=? 0 then remove_service i st else Some st) as [st0|]; [|reflexivity].
@@ -70,12 +74,12 @@ Proof.
   pose proof (load_min_gc now st0) as H1. destruct (load_min now st0) as [st1 mn]. cbn [fst] in H1.
   destruct ((0 <? ttl) && (e_sp mn <=? sp)); [|cbn; congruence].
   destruct (save_service _ _ st1) as [st2|] eqn:Es; [|cbn; congruence].
-  apply save_service_gc in Es; [|exact Hk].
+  apply save_service_gc in Es.
   destruct (text_eqb (text_of i) (e_text mn)); [|cbn; congruence].
   pose proof (load_min_gc now st2) as H3. destruct (load_min now st2) as [st3 mn']. cbn [fst] in *. congruence.
 Qed.
 
-(* ---------- invariant of exclusive, non-escaping executions ---------- *)
+(* ---------- invariant of executions in which load..save sections do not overlap ---------- *)
 Record J (s : state) : Prop := {
   j_read : exists g, gc_read (gc (sto s)) = Some g
              /\ (forall a, In a (acks s) -> a <= g)
@@ -97,10 +101,10 @@ Lemma J_set_sto s st : J s -> gc st = gc (sto s) -> J (set_sto s st).
 Proof. intros [[g (Hg & Ha & Ht)] H1 Hr] E. constructor; cbn; [exists g; rewrite E; auto | exact H1 | exact Hr]. Qed.
 
 Lemma J_step b s l s' :
-  J s -> clean_label l = true -> (b = true \/ excl_label s l = true) ->
+  J s -> (b = true \/ excl_label s l = true) ->
   step_gen b s l = Some s' -> J s' /\ gc_le (gc (sto s)) (gc (sto s')).
 Proof.
-  intros Hj Hc He H.
+  intros Hj He H.
   assert (Hrefl : forall s0, J s0 -> gc_le (gc (sto s0)) (gc (sto s0))).
   { intros s0 [[g (Hg & _)] _ _]. exists g, g. repeat split; auto; lia. }
   destruct l as [t v|t o| |i ttl sp now|i|i exp sp]; cbn [step_gen] in H.
@@ -172,30 +176,28 @@ Proof.
     + exact H1.
     + intros r bf a [Heq|Hin] Hia; [inversion Heq; subst; auto | eauto].
   - (* LSvc *)
-    inj_some. cbn in Hc. apply negb_true_iff in Hc.
-    pose proof (svc_update_gc (sto s) i ttl sp now Hc) as E.
+    inj_some.
+    pose proof (svc_update_gc (sto s) i ttl sp now) as E.
     split; [apply J_set_sto; assumption|]. cbn. rewrite E. apply Hrefl; exact Hj.
   - (* LApiDel *)
-    cbn in Hc. apply negb_true_iff in Hc.
     destruct (remove_service i (sto s)) as [st|] eqn:Er; inj_some; [|split; [exact Hj | apply Hrefl; exact Hj]].
-    apply remove_service_gc in Er; [|exact Hc].
+    apply remove_service_gc in Er.
     split; [apply J_set_sto; assumption|]. cbn. rewrite Er. apply Hrefl; exact Hj.
   - (* LSeed *)
-    inj_some. cbn in Hc. apply negb_true_iff in Hc.
-    pose proof (st_save_gc (key_of i) (Entry (text_of i) exp sp) (sto s) Hc) as E.
-    split; [apply J_set_sto; assumption|]. cbn. rewrite E. apply Hrefl; exact Hj.
+    destruct (key_of i) as [|n|] eqn:Ek; inj_some; try (split; [exact Hj | apply Hrefl; exact Hj]).
+    split; [apply J_set_sto; [assumption|reflexivity]|]. cbn. apply Hrefl; exact Hj.
 Qed.
 
 (* ---------- all guarded executions ---------- *)
 Section GuardedExec.
   Variable b : bool.
   Variable G : state -> label -> bool.
-  Hypothesis HG : forall s l, G s l = true -> clean_label l = true /\ (b = true \/ excl_label s l = true).
+  Hypothesis HG : forall s l, G s l = true -> (b = true \/ excl_label s l = true).
 
   Lemma J_exec ls : guarded (step_gen b) G init ls = true -> J (exec (step_gen b) init ls).
   Proof.
     apply (invariant_guarded (step_gen b) G J); [|exact J_init].
-    intros s l s' Hj Hg Hs. destruct (HG _ _ Hg) as [Hc He]. exact (proj1 (J_step b s l s' Hj Hc He Hs)).
+    intros s l s' Hj Hg Hs. exact (proj1 (J_step b s l s' Hj (HG _ _ Hg) Hs)).
   Qed.
 
   Lemma monotone_guarded ls l s' :
@@ -204,8 +206,7 @@ Section GuardedExec.
     gc_le (gc (sto (exec (step_gen b) init ls))) (gc (sto s')).
   Proof.
     intros Hg Hs. destruct (guarded_last _ _ _ _ _ _ Hg Hs) as [Hg1 Hg2].
-    destruct (HG _ _ Hg2) as [Hc He].
-    exact (proj2 (J_step b _ l s' (J_exec ls Hg1) Hc He Hs)).
+    exact (proj2 (J_step b _ l s' (J_exec ls Hg1) (HG _ _ Hg2) Hs)).
   Qed.
 
   Lemma responses_guarded ls r bf a :
@@ -213,47 +214,64 @@ Section GuardedExec.
     In (r, bf) (resps (exec (step_gen b) init ls)) -> In a bf -> a <= r.
   Proof. intros Hg. apply (j_resp _ (J_exec ls Hg)). Qed.
 
-  (* what is stored is an upper bound of everything acknowledged *)
   Lemma acks_le_stored_guarded ls a :
     guarded (step_gen b) G init ls = true -> In a (acks (exec (step_gen b) init ls)) ->
     exists g, gc_read (gc (sto (exec (step_gen b) init ls))) = Some g /\ a <= g.
   Proof. intros Hg Hin. destruct (j_read _ (J_exec ls Hg)) as (g & Hr & Ha & _). exists g; auto. Qed.
 End GuardedExec.
 
-Lemma safe_label_ok b : forall s l, safe_label s l = true -> clean_label l = true /\ (b = true \/ excl_label s l = true).
-Proof. intros s l H. apply andb_true_iff in H as [H1 H2]. auto. Qed.
-Lemma clean_guard_ok : forall s l, clean_guard s l = true -> clean_label l = true /\ (true = true \/ excl_label s l = true).
-Proof. intros s l H. auto. Qed.
+Lemma guarded_no_guard b ls : forall s, guarded (step_gen b) no_guard s ls = true.
+Proof.
+  induction ls as [|l r IH]; intros s; cbn [guarded]; [reflexivity|].
+  destruct (step_gen b s l); [cbn; apply IH | apply IH].
+Qed.
 
-(* the code as it is: UpdateGCSafePoint takes no lock around load..save *)
-Lemma gc_unlocked_now : gc_locked = false.
+(* the code as it is now: UpdateGCSafePoint holds gcSafePointLock from before LoadGCSafePoint to its return *)
+Lemma gc_locked_now : gc_locked = true.
 Proof. reflexivity. Qed.
 
-(* ---------- witnesses against the unrestricted statements (current code) ---------- *)
+Lemma no_guard_ok : forall s l, no_guard s l = true -> (gc_locked = true \/ excl_label s l = true).
+Proof. intros; left; exact gc_locked_now. Qed.
+Lemma excl_ok b : forall s l, excl_label s l = true -> (b = true \/ excl_label s l = true).
+Proof. intros; right; assumption. Qed.
+
+(* ---------- all executions of the code as it is ---------- *)
+Lemma gc_monotone_pf ls l s' :
+  step (exec step init ls) l = Some s' -> gc_le (gc (sto (exec step init ls))) (gc (sto s')).
+Proof. apply (monotone_guarded gc_locked no_guard no_guard_ok). apply guarded_no_guard. Qed.
+
+Lemma response_ge_pf ls r bf a : In (r, bf) (resps (exec step init ls)) -> In a bf -> a <= r.
+Proof. apply (responses_guarded gc_locked no_guard no_guard_ok). apply guarded_no_guard. Qed.
+
+Lemma acks_le_stored_pf ls a : In a (acks (exec step init ls)) ->
+  exists g, gc_read (gc (sto (exec step init ls))) = Some g /\ a <= g.
+Proof. apply (acks_le_stored_guarded gc_locked no_guard no_guard_ok). apply guarded_no_guard. Qed.
+
+(* ---------- the old witnesses ---------- *)
+(* S6: A loads 5, B loads 5, B saves 20, A saves 10. *)
 Definition w_overlap : list label := [LLoad 0 5; LSave 0 Ok; LLoad 0 10; LLoad 1 20; LSave 1 Ok].
 
-Lemma overlap_decreases :
-  exists s', step (exec step init w_overlap) (LSave 0 Ok) = Some s'
-             /\ gc (sto (exec step init w_overlap)) = GVal 20 /\ gc (sto s') = GVal 10.
+(* without the mutex (step_gen false, the code before the fix) the last step takes the store from 20 back to 10 *)
+Lemma overlap_decreases_without_mutex :
+  exists s', step_gen false (exec (step_gen false) init w_overlap) (LSave 0 Ok) = Some s'
+             /\ gc (sto (exec (step_gen false) init w_overlap)) = GVal 20 /\ gc (sto s') = GVal 10.
 Proof. eexists. split; [vm_compute; reflexivity|]. split; vm_compute; reflexivity. Qed.
 
-Lemma overlap_is_clean : guarded step clean_guard init (w_overlap ++ [LSave 0 Ok]) = true.
-Proof. vm_compute. reflexivity. Qed.
+Lemma without_mutex_refuted_pf :
+  ~ (forall ls l s', step_gen false (exec (step_gen false) init ls) l = Some s' ->
+       gc_le (gc (sto (exec (step_gen false) init ls))) (gc (sto s'))).
+Proof.
+  intros H. destruct overlap_decreases_without_mutex as (s' & Hs & Ha & Hb).
+  destruct (H _ _ _ Hs) as (x & y & Hx & Hy & Hle). rewrite Ha in Hx. rewrite Hb in Hy.
+  cbn in Hx, Hy. inversion Hx; inversion Hy; subst. lia.
+Qed.
 
-Definition w_escape : list label := [LLoad 0 30; LSave 0 Ok].
-Definition l_escape : label := LSvc (IName 100 KGc) 0 0 1700000000.
-
-Lemma escape_removes :
-  exists s', step (exec step init w_escape) l_escape = Some s'
-             /\ gc (sto (exec step init w_escape)) = GVal 30 /\ gc (sto s') = GAbsent.
-Proof. eexists. split; [vm_compute; reflexivity|]. split; vm_compute; reflexivity. Qed.
-
-Lemma escape_is_exclusive : guarded step excl_label init (w_escape ++ [l_escape]) = true.
-Proof. vm_compute. reflexivity. Qed.
-
-Lemma overlap_response_low :
-  In (10, [10; 20; 5]) (resps (exec step init (w_overlap ++ [LSave 0 Ok; LGet]))).
-Proof. vm_compute. auto. Qed.
+(* with the mutex B cannot load while A is inside: the label is disabled (the request blocks) *)
+Lemma overlap_now_blocked :
+  step (exec step init [LLoad 0 5; LSave 0 Ok; LLoad 0 10]) (LLoad 1 20) = None
+  /\ gc (sto (exec step init (w_overlap ++ [LSave 0 Ok]))) = GVal 10
+  /\ resps (exec step init (w_overlap ++ [LSave 0 Ok; LLoad 1 20; LSave 1 Ok; LGet])) = [(20, [20; 10; 5]); (20, [10; 5]); (10, [5]); (5, [])].
+Proof. vm_compute. repeat split; reflexivity. Qed.
 
 (* ================= Part 2: service safe points ================= *)
 
@@ -577,7 +595,7 @@ Lemma svc_update_cases st i ttl sp now st' r :
     (if ttl <=? 0 then remove_service i st else Some st) = Some st0 /\ load_min now st0 = (st1, mn) /\
     ( ((0 <? ttl) && (e_sp mn <=? sp) = false /\ st' = st1 /\ r = resp_of mn now)
       \/ ((0 <? ttl) && (e_sp mn <=? sp) = true /\
-          exists st2, save_service (key_of i) (Entry (text_of i) (exp_of now ttl) sp) st1 = Some st2 /\
+          exists st2, save_service i (Entry (text_of i) (exp_of now ttl) sp) st1 = Some st2 /\
             ( (text_eqb (text_of i) (e_text mn) = false /\ st' = st2 /\ r = resp_of mn now)
               \/ (text_eqb (text_of i) (e_text mn) = true /\ exists mn', load_min now st2 = (st', mn') /\ r = resp_of mn' now)))).
 Proof.
@@ -593,11 +611,20 @@ Proof.
   - left. inversion H; subst. auto.
 Qed.
 
-Lemma save_service_spec k e st st' :
-  save_service k e st = Some st' -> st' = st_save k e st /\ (e_text e = TGcw -> e_exp e = maxI64).
+Lemma save_service_spec i e st st' :
+  save_service i e st = Some st' ->
+  st' = st_save (key_of i) e st /\ (e_text e = TGcw -> e_exp e = maxI64) /\ is_clean i = true.
 Proof.
-  unfold save_service. destruct (e_text e) eqn:Et; [destruct (Z.eqb_spec (e_exp e) maxI64)| |]; intros H; inversion H; subst;
-    split; try reflexivity; try assumption; intros; try discriminate; auto.
+  unfold save_service, id_ok. destruct (e_text e) eqn:Et; try discriminate; destruct (is_clean i); cbn; try discriminate.
+  - destruct (Z.eqb_spec (e_exp e) maxI64); intros H; inversion H; subst. auto.
+  - intros H; inversion H; subst. repeat split; auto. discriminate.
+Qed.
+
+Lemma remove_service_spec i st st' :
+  remove_service i st = Some st' -> st' = st_remove (key_of i) st /\ is_clean i = true /\ text_of i <> TGcw.
+Proof.
+  unfold remove_service, id_ok. destruct (text_of i) eqn:Et; try discriminate; destruct (is_clean i); try discriminate;
+    intros H; inversion H; subst; repeat split; auto; discriminate.
 Qed.
 
 Lemma wf_remove k st : wf_svcs (svcs st) -> wf_svcs (svcs (st_remove k st)).
@@ -625,7 +652,7 @@ Lemma wf_step0 st i ttl st0 :
   wf_svcs (svcs st) -> (if ttl <=? 0 then remove_service i st else Some st) = Some st0 -> wf_svcs (svcs st0).
 Proof.
   intros Hwf H. destruct (ttl <=? 0); [|inversion H; subst; exact Hwf].
-  unfold remove_service in H. destruct (text_of i); inversion H; subst; apply wf_remove; exact Hwf.
+  apply remove_service_spec in H as (-> & _). apply wf_remove; exact Hwf.
 Qed.
 
 Lemma exp_of_live now ttl : 0 < ttl -> now <= maxI64 -> now <= exp_of now ttl.
@@ -653,7 +680,7 @@ Section SvcPost.
     intros k e Hg _.
     destruct Hc as [(Eg & -> & ->)|(Eg & st2 & Es & Hc)]; [cbn; eapply (lm_min _ _ _ _ P1); eauto|].
     apply andb_true_iff in Eg as [Ettl Ele]. apply Z.leb_le in Ele.
-    apply save_service_spec in Es as [-> Hinf].
+    apply save_service_spec in Es as (-> & Hinf & Hok).
     destruct Hc as [(Et & -> & ->)|(Et & mn' & H2 & ->)].
     - cbn. rewrite get_save in Hg. destruct (key_of i) as [|n|]; try (eapply (lm_min _ _ _ _ P1); eauto; fail).
       destruct (Z.eqb_spec k n); [inversion Hg; subst; cbn; exact Ele | eapply (lm_min _ _ _ _ P1); eauto].
@@ -670,7 +697,7 @@ Section SvcPost.
     intros k e Hg.
     destruct Hc as [(Eg & -> & ->)|(Eg & st2 & Es & Hc)]; [eapply (lm_live _ _ _ _ P1); eauto|].
     apply andb_true_iff in Eg as [Ettl Ele]. apply Z.ltb_lt in Ettl.
-    apply save_service_spec in Es as [-> Hinf].
+    apply save_service_spec in Es as (-> & Hinf & Hok).
     destruct Hc as [(Et & -> & ->)|(Et & mn' & H2 & ->)].
     - rewrite get_save in Hg. destruct (key_of i) as [|n|]; try (eapply (lm_live _ _ _ _ P1); eauto; fail).
       destruct (Z.eqb_spec k n); [inversion Hg; subst; cbn; apply exp_of_live; assumption | eapply (lm_live _ _ _ _ P1); eauto].
@@ -685,21 +712,20 @@ Section SvcPost.
     destruct (svc_update_cases _ _ _ _ _ _ _ Hrun) as (st0 & st1 & mn & H0 & H1 & Hc).
     pose proof (load_min_post _ _ _ _ (wf_step0 _ _ _ _ Hwf H0) Hnow H1) as P1.
     destruct Hc as [(Eg & -> & ->)|(Eg & st2 & Es & Hc)]; [apply (lm_wf _ _ _ _ P1)|].
-    apply save_service_spec in Es as [-> Hinf].
+    apply save_service_spec in Es as (-> & Hinf & Hok).
     assert (Hwf2 : wf_svcs (svcs (st_save (key_of i) (Entry (text_of i) (exp_of now ttl) sp) st1))).
     { apply wf_save; [apply (lm_wf _ _ _ _ P1) | exact Hsp | intros n Hk Ht; eapply key_text_ok; eauto]. }
     destruct Hc as [(Et & -> & ->)|(Et & mn' & H2 & ->)]; [exact Hwf2|].
     apply (lm_wf _ _ _ _ (load_min_post _ _ _ _ Hwf2 Hnow H2)).
   Qed.
 
-  (* clause 4: gc_worker's entry exists with unlimited lifetime (ids that are stored under their own key) *)
-  Lemma gc_worker_always_infinite_pf : is_clean i = true -> gcw_ok (svcs st').
+  (* clause 4: gc_worker's entry exists with unlimited lifetime *)
+  Lemma gc_worker_always_infinite_pf : gcw_ok (svcs st').
   Proof.
-    intros Hclean.
     destruct (svc_update_cases _ _ _ _ _ _ _ Hrun) as (st0 & st1 & mn & H0 & H1 & Hc).
     pose proof (load_min_post _ _ _ _ (wf_step0 _ _ _ _ Hwf H0) Hnow H1) as P1.
     destruct Hc as [(Eg & -> & ->)|(Eg & st2 & Es & Hc)]; [apply (lm_gcw _ _ _ _ P1)|].
-    apply save_service_spec in Es as [-> Hinf].
+    apply save_service_spec in Es as (-> & Hinf & Hok).
     assert (Hwf2 : wf_svcs (svcs (st_save (key_of i) (Entry (text_of i) (exp_of now ttl) sp) st1))).
     { apply wf_save; [apply (lm_wf _ _ _ _ P1) | exact Hsp | intros n Hk Ht; eapply key_text_ok; eauto]. }
     destruct Hc as [(Et & -> & ->)|(Et & mn' & H2 & ->)]; [|apply (lm_gcw _ _ _ _ (load_min_post _ _ _ _ Hwf2 Hnow H2))].
@@ -708,7 +734,7 @@ Section SvcPost.
     - exists (Entry TGcw (exp_of now ttl) sp). cbn. split; [reflexivity|]. split; [reflexivity|]. apply Hinf. reflexivity.
     - exists g. auto.
     - destruct k as [|n|]; try (exists g; auto; fail).
-      cbn in Hclean. apply andb_true_iff in Hclean as [Hz Hnz]. apply Z.eqb_eq in Hz. apply negb_true_iff, Z.eqb_neq in Hnz. subst n.
+      cbn in Hok. apply andb_true_iff in Hok as [Hz Hnz]. apply Z.eqb_eq in Hz. apply negb_true_iff, Z.eqb_neq in Hnz. subst n.
       destruct (Z.eqb_spec 0 z); [congruence|]. exists g. auto.
   Qed.
 
@@ -723,7 +749,7 @@ Section SvcPost.
     pose proof (load_min_post _ _ _ _ Hwf Hnow H1) as P1. rewrite H1. cbn [fst snd].
     destruct Hc as [(Eg & -> & ->)|(Eg & st2 & Es & Hc)]; [auto|]. exfalso.
     apply andb_true_iff in Eg as [_ Ele]. apply Z.leb_le in Ele.
-    apply save_service_spec in Es as [-> Hinf].
+    apply save_service_spec in Es as (-> & Hinf & Hok).
     destruct Hc as [(Et & -> & ->)|(Et & mn' & H2 & ->)]; [cbn in Hlt; lia|].
     assert (Hwf2 : wf_svcs (svcs (st_save (key_of i) (Entry (text_of i) (exp_of now ttl) sp) st1))).
     { apply wf_save; [apply (lm_wf _ _ _ _ P1) | exact Hsp | intros n0 Hk Ht; eapply key_text_ok; eauto]. }
@@ -748,7 +774,7 @@ Section SvcPost.
     destruct (Z.leb_spec ttl 0); [|lia].
     destruct Hc as [(Eg & -> & ->)|(Eg & _)]; [|destruct (Z.ltb_spec 0 ttl); [lia|discriminate Eg]].
     rewrite (lm_keep _ _ _ _ P1 _ Hn).
-    unfold remove_service in H0. destruct (text_of i); inversion H0; subst; rewrite Hkey; cbn; rewrite get_del_same; reflexivity.
+    apply remove_service_spec in H0 as (-> & _). rewrite Hkey; cbn; rewrite get_del_same; reflexivity.
   Qed.
 End SvcPost.
 
@@ -768,9 +794,8 @@ Qed.
 (* the values a label carries are 64-bit quantities *)
 Definition label_ok (l : label) : Prop :=
   match l with LSvc _ _ sp now => 0 <= sp /\ now <= maxI64 | LSeed _ _ sp => 0 <= sp | _ => True end.
-(* service ids are stored under their own key; no raw writes into storage *)
-Definition svc_clean (l : label) : Prop :=
-  match l with LSvc i _ _ _ | LApiDel i => is_clean i = true | LSeed _ _ _ => False | _ => True end.
+(* no raw writes into storage behind the handlers' back *)
+Definition no_seed (l : label) : Prop := match l with LSeed _ _ _ => False | _ => True end.
 
 Lemma wf_step b s l s' :
   wf_svcs (svcs (sto s)) -> label_ok l -> step_gen b s l = Some s' -> wf_svcs (svcs (sto s')).
@@ -787,13 +812,14 @@ Proof.
     + destruct (svc_update_none _ _ _ _ _ _ E) as [->|(st0 & mn & H0 & H1)]; [exact Hwf|].
       apply (lm_wf _ _ _ _ (load_min_post _ _ _ _ (wf_step0 _ _ _ _ Hwf H0) Hnow H1)).
   - destruct (remove_service i (sto s)) as [st|] eqn:E; inversion H; subst; [|exact Hwf].
-    unfold remove_service in E. destruct (text_of i); inversion E; subst; cbn; apply wf_remove; exact Hwf.
-  - inversion H; subst. cbn. apply wf_save; [exact Hwf | exact Hok |].
-    intros n Hk Ht. eapply key_text_ok; eauto.
+    apply remove_service_spec in E as (-> & _). cbn. apply wf_remove; exact Hwf.
+  - destruct (key_of i) as [|n|] eqn:Ek; inversion H; subst; try exact Hwf.
+    change (wf_svcs (svcs (st_save (KSvc n) (Entry (text_of i) exp sp) (sto s)))).
+    apply wf_save; [exact Hwf | exact Hok |]. intros n0 Hk Ht. inversion Hk; subst. eapply key_text_ok; eauto.
 Qed.
 
 Lemma gcw_step b s l s' :
-  wf_svcs (svcs (sto s)) -> gcw_ok (svcs (sto s)) -> label_ok l -> svc_clean l ->
+  wf_svcs (svcs (sto s)) -> gcw_ok (svcs (sto s)) -> label_ok l -> no_seed l ->
   step_gen b s l = Some s' -> gcw_ok (svcs (sto s')).
 Proof.
   intros Hwf Hg Hok Hcl H. destruct l as [t v|t o| |i ttl sp now|i|i exp sp]; cbn [step_gen] in H.
@@ -808,16 +834,16 @@ Proof.
     + destruct (svc_update_none _ _ _ _ _ _ E) as [->|(st0 & mn & H0 & H1)]; [exact Hg|].
       apply (lm_gcw _ _ _ _ (load_min_post _ _ _ _ (wf_step0 _ _ _ _ Hwf H0) Hnow H1)).
   - destruct (remove_service i (sto s)) as [st|] eqn:E; inversion H; subst; [|exact Hg].
-    unfold remove_service in E. cbn in Hcl.
-    destruct i as [| |z k]; cbn in E; inversion E; subst; cbn; [exact Hg|].
+    apply remove_service_spec in E as (-> & Hc & Hnt).
+    destruct i as [| |z k]; cbn in *; [congruence|exact Hg|].
     destruct k as [|n|]; cbn; try exact Hg.
-    cbn in Hcl. apply andb_true_iff in Hcl as [Hz Hnz]. apply Z.eqb_eq in Hz. apply negb_true_iff, Z.eqb_neq in Hnz. subst n.
+    apply andb_true_iff in Hc as [Hz Hnz]. apply Z.eqb_eq in Hz. apply negb_true_iff, Z.eqb_neq in Hnz. subst n.
     destruct Hg as (g & Hg0 & Hg1). exists g. rewrite get_del_other by congruence. auto.
   - destruct Hcl.
 Qed.
 
 Lemma gcw_stays_pf b : forall ls s,
-  wf_svcs (svcs (sto s)) -> gcw_ok (svcs (sto s)) -> Forall (fun l => label_ok l /\ svc_clean l) ls ->
+  wf_svcs (svcs (sto s)) -> gcw_ok (svcs (sto s)) -> Forall (fun l => label_ok l /\ no_seed l) ls ->
   gcw_ok (svcs (sto (exec (step_gen b) s ls))).
 Proof.
   induction ls as [|l r IH]; intros s Hwf Hg Hall; cbn [exec]; [exact Hg|].
@@ -837,69 +863,12 @@ Proof.
   apply IH; [eapply wf_step; eauto | exact Hr].
 Qed.
 
-(* aliasing ids do break clause 4 on the code as it is: "x/../gc_worker" with a finite TTL *)
-Lemma alias_clobbers_gcw :
-  let st := fst (svc_update (Store GAbsent []) IGcw maxI64 7 1700000000) in
-  gcw_ok (svcs st) /\
-  exists st' r, svc_update st (IName 101 (KSvc 0)) 1000 8 1700000000 = (st', Some r) /\ sv_get 0 (svcs st') = Some (Entry (TName 101) 1700001000 8).
-Proof.
-  split; [exists (Entry TGcw maxI64 7); vm_compute; auto|].
-  eexists. eexists. split; vm_compute; reflexivity.
-Qed.
-
-(* ---------- the refutations, as lemmas (props/C15.v only states them) ---------- *)
-Definition gc_monotone_for (G : state -> label -> bool) : Prop :=
-  forall ls l s', guarded step G init (ls ++ [l]) = true -> step (exec step init ls) l = Some s' ->
-    gc_le (gc (sto (exec step init ls))) (gc (sto s')).
-Definition no_guard (_ : state) (_ : label) : bool := true.
-
-Lemma guarded_no_guard ls : guarded step no_guard init ls = true.
-Proof.
-  generalize init. induction ls as [|l r IH]; intros s; cbn [guarded]; [reflexivity|].
-  destruct (step s l); [cbn; apply IH | apply IH].
-Qed.
-
-Lemma gc_monotone_refuted_pf :
-  ~ (forall ls l s', step (exec step init ls) l = Some s' -> gc_le (gc (sto (exec step init ls))) (gc (sto s'))).
-Proof.
-  intros H. destruct overlap_decreases as (s' & Hs & Ha & Hb).
-  destruct (H _ _ _ Hs) as (x & y & Hx & Hy & Hle). rewrite Ha in Hx. rewrite Hb in Hy.
-  cbn in Hx, Hy. inversion Hx; inversion Hy; subst. lia.
-Qed.
-
-(* interleaving alone suffices (all ids clean) ... *)
-Lemma gc_monotone_needs_exclusion_pf : ~ gc_monotone_for clean_guard.
-Proof.
-  intros H. destruct overlap_decreases as (s' & Hs & Ha & Hb).
-  destruct (H _ _ _ overlap_is_clean Hs) as (x & y & Hx & Hy & Hle). rewrite Ha in Hx. rewrite Hb in Hy.
-  cbn in Hx, Hy. inversion Hx; inversion Hy; subst. lia.
-Qed.
-
-(* ... and so does one request with service id ".." (no concurrency at all) *)
-Lemma gc_monotone_needs_clean_ids_pf : ~ gc_monotone_for excl_label.
-Proof.
-  intros H. destruct escape_removes as (s' & Hs & Ha & Hb).
-  destruct (H _ _ _ escape_is_exclusive Hs) as (x & y & Hx & Hy & Hle). rewrite Ha in Hx. rewrite Hb in Hy.
-  cbn in Hx, Hy. inversion Hx; inversion Hy; subst. lia.
-Qed.
-
-Lemma response_refuted_pf :
-  ~ (forall ls r before a, In (r, before) (resps (exec step init ls)) -> In a before -> a <= r).
-Proof.
-  intros H. specialize (H _ _ _ 20 overlap_response_low). cbn in H. specialize (H (or_intror (or_introl eq_refl))). lia.
-Qed.
-
-Lemma gcw_refuted_pf :
-  ~ (forall st i ttl sp now st' r, wf_svcs (svcs st) -> gcw_ok (svcs st) -> 0 <= sp -> now <= maxI64 ->
-       svc_update st i ttl sp now = (st', Some r) -> gcw_ok (svcs st')).
-Proof.
-  intros H. destruct alias_clobbers_gcw as (Hg & st' & r & Hrun & Hget).
-  set (st := fst (svc_update (Store GAbsent []) IGcw maxI64 7 1700000000)) in *.
-  assert (Hwf : wf_svcs (svcs st)).
-  { split; [vm_compute; split; [intros ? ? []|exact I]|].
-    intros k e. vm_compute. destruct k as [|p|p]; intros Hk; inversion Hk; subst; split; auto; discriminate. }
-  assert (Hnow : 1700000000 <= maxI64) by (vm_compute; discriminate).
-  assert (Hsp : 0 <= 8) by lia.
-  destruct (H st (IName 101 (KSvc 0)) 1000 8 1700000000 st' r Hwf Hg Hsp Hnow Hrun) as (g & Hg0 & Hg1 & _).
-  rewrite Hget in Hg0. inversion Hg0; subst. discriminate Hg1.
-Qed.
+(* ---------- the old path-escape witnesses are refused now ---------- *)
+Lemma escapes_now_refused :
+  let st := fst (svc_update (Store (GVal 30) []) IGcw maxI64 7 1700000000) in
+  svc_update st (IName 100 KGc) 0 0 1700000000 = (st, None)                       (* "..", TTL <= 0 *)
+  /\ snd (svc_update st (IName 100 KGc) 1000 9 1700000000) = None               (* "..", TTL > 0 *)
+  /\ gc (fst (svc_update st (IName 100 KGc) 1000 9 1700000000)) = GVal 30
+  /\ svc_update st (IName 101 (KSvc 0)) 0 8 1700000000 = (st, None)             (* "x/../gc_worker", TTL <= 0 *)
+  /\ svc_update st (IName 101 (KSvc 0)) 1000 8 1700000000 = (st, None).         (* "x/../gc_worker", TTL > 0 *)
+Proof. vm_compute. repeat split; reflexivity. Qed.
